@@ -86,6 +86,10 @@ func buildFamily(x *Executor, seed uint64, idx int) (*family, int, error) {
 			// which declare tokens: the order in which lox reads them matters
 			cand.TwoFiles, cand.SplitLex = true, true
 		}
+		if idx%8 == 1 {
+			// parser rules named like the reserved terminals
+			cand = specgen.GenerateReservedRuleNames(r.Uint64())
+		}
 		if idx%8 == 5 {
 			// one LR state with 36+ outgoing symbols
 			cand = specgen.Generate(r.Uint64(), specgen.Options{RichParser: true, Wide: true})
